@@ -108,7 +108,7 @@ def gen_cases(tier, seed):
             if c["monitor"] == "exactly-once" and c["run"]["engine"] == "standard":
                 for paths in (13, 101):
                     extra.append({"monitor": "exactly-once", "run": dict(c["run"], paths=paths)})
-            if c["monitor"] in ("repeat-fresh", "seed-audit") and c["run"]["engine"] != "standard":
+            if c["monitor"] in ("repeat-fresh", "seed-audit") and c["run"]["engine"] != "standard" and c["run"].get("seed") is not None:
                 extra.append({"monitor": c["monitor"], "run": dict(c["run"], seed=c["run"]["seed"] + 17, paths=35)})
         cases += extra
     return cases
